@@ -106,20 +106,21 @@ type result struct {
 	Faults     map[string]int `json:"faults"`
 	Probes     map[string]int `json:"probes"`
 	Shape      string         `json:"shape"` // abstract event sequence hash (distinctness measure)
+	Nontrivial bool           `json:"nontrivial"`
 	Ops        []string       `json:"ops"`
 	Violations []violation    `json:"violations"`
 	Note       string         `json:"note,omitempty"`
 }
 
 type world struct {
-	seed   uint64
-	rng    *prng
-	net    *simNet
-	j      *journal
-	start  time.Time
-	res    *result
-	shape  [32]byte
-	checks []func() // invariants evaluated at every quiescent step
+	seed          uint64
+	rng           *prng
+	net           *simNet
+	j             *journal
+	start         time.Time
+	res           *result
+	shape         [32]byte
+	checks        []func() // invariants evaluated at every quiescent step
 	inflightTasks int
 }
 
@@ -153,9 +154,9 @@ func (w *world) abstract(format string, a ...any) {
 	copy(w.shape[:], hh.Sum(nil))
 }
 
-func (w *world) violate(clause, format string, a ...any) {
-	v := violation{Property: w.res.Property, Clause: clause, Detail: fmt.Sprintf(format, a...)}
-	w.j.logf("VIOLATION %s: %s", clause, v.Detail)
+func (w *world) violate(prop, clause, format string, a ...any) {
+	v := violation{Property: prop, Clause: clause, Detail: fmt.Sprintf(format, a...)}
+	w.j.logf("VIOLATION %s %s: %s", prop, clause, v.Detail)
 	if len(w.res.Violations) < 20 {
 		w.res.Violations = append(w.res.Violations, v)
 	}
